@@ -335,7 +335,7 @@ def makeFromCollection (cfg : Cfg) (c : Coll) : Except Err Spec :=
     let co := customOutOf reg md quirk (cs.map fun _ => PyObj.none)
     if co.numOut != 2 && co.numOut != 3 then Except.error Err.runtime
     else match co.children with
-      | Option.none => Except.error Err.runtime
+      | Option.none => Except.error Err.type_
       | some _ =>
         match verifyChildren nil cfg.ns true cs with
         | .error e => Except.error e
